@@ -3,6 +3,7 @@ package exec
 import (
 	"fmt"
 	"go/types"
+	"strings"
 
 	"golang.org/x/tools/go/ssa"
 
@@ -184,6 +185,9 @@ func (e *Exec) noteAccess(p Ptr, write bool) {
 	if !e.raceCheck || e.cur == nil || len(e.threads) < 2 || p.Obj == nil {
 		return
 	}
+	if !e.raceTracked(p.Obj) {
+		return
+	}
 	t := e.cur
 	key := accKey{p.Obj, -1}
 	if len(p.Path) > 0 {
@@ -224,6 +228,23 @@ func (e *Exec) noteAccess(p Ptr, write bool) {
 	}
 }
 
+// raceTracked: the happens-before check covers the library's client state (Tunnel, Router),
+// not harness bookkeeping.
+func (e *Exec) raceTracked(o *Object) bool {
+	if o.T == nil {
+		return false
+	}
+	n, ok := o.T.(*types.Named)
+	if !ok {
+		return false
+	}
+	switch n.Obj().Name() {
+	case "Tunnel", "Router":
+		return n.Obj().Pkg() != nil && n.Obj().Pkg().Name() == "knx"
+	}
+	return false
+}
+
 type accKey struct {
 	obj   *Object
 	field int
@@ -243,7 +264,17 @@ func (e *Exec) reportRace(p Ptr, a, b *access) {
 		}
 		return "read"
 	}
-	panic(pathEnd{kind: "race", detail: fmt.Sprintf("%s: %s at %s (T%d) vs %s at %s (T%d)", name, kind(a), a.site, a.tid, kind(b), b.site, b.tid), site: b.site})
+	detail := fmt.Sprintf("%s: %s at %s vs %s at %s", name, kind(a), a.site, kind(b), b.site)
+	for _, k := range e.Cfg.KnownRaces {
+		if strings.Contains(detail, k) {
+			if e.knownRaces == nil {
+				e.knownRaces = map[string]bool{}
+			}
+			e.knownRaces[detail] = true
+			return
+		}
+	}
+	panic(pathEnd{kind: "race", detail: detail, site: b.site})
 }
 
 func (e *Exec) tick(t *Thread) { t.vc[t.ID]++ }
